@@ -576,24 +576,13 @@ static Token *append_tokens(Token *tok1, Token *tok2) {
 }
 
 static void cc1(void) {
-  Token *tok = NULL;
-
-  // Process -include option
-  for (int i = 0; i < opt_include.len; i++) {
-    char *incl = opt_include.data[i];
-
-    char *path;
-    if (file_exists(incl)) {
-      path = incl;
-    } else {
-      path = search_include_paths(incl);
-      if (!path)
-        error("-include: %s: %s", incl, strerror(errno));
-    }
-
-    Token *tok2 = must_tokenize_file(path);
-    tok = append_tokens(tok, tok2);
-  }
+  // Process -include option: the main file is read as if it began with
+  // an `#include "file"` line for each of them, except that the file is
+  // looked up in the working directory first.
+  char *incl = "";
+  for (int i = 0; i < opt_include.len; i++)
+    incl = format("%s#include \"%s\"\n", incl, opt_include.data[i]);
+  Token *tok = tokenize(new_file("<command line>", 1, incl));
 
   // Tokenize and parse.
   Token *tok2 = must_tokenize_file(base_file);
